@@ -9,14 +9,24 @@ Import ListNotations.
 Lemma partial_read_spec : forall amt data o l d o', partial_read amt data o = (l, d, o') ->
   data = l ++ d /\ length l <= amt /\ (l = [] -> amt = 0 \/ data = []).
 Proof.
-  intros amt data o l d o' H. unfold partial_read in H.
-  destruct o as [|c o0]; inversion H; subst; clear H.
-  - split; [now rewrite firstn_skipn|]. split; [rewrite firstn_length; lia|].
+  intros amt data o. induction o as [|x r IH]; intros l d o' H; simpl in H.
+  - inversion H; subst; clear H. split; [now rewrite firstn_skipn|]. split; [rewrite firstn_length; lia|].
     intros E. destruct amt; [now left|]. destruct data; [now right|simpl in E; discriminate].
-  - split; [now rewrite firstn_skipn|]. split; [rewrite firstn_length; lia|].
+  - destruct x as [c|]; [|exact (IH _ _ _ H)].
+    inversion H; subst; clear H. split; [now rewrite firstn_skipn|]. split; [rewrite firstn_length; lia|].
     intros E. destruct amt; [now left|]. right.
     destruct data; [reflexivity|]. apply (f_equal (@length N)) in E. rewrite firstn_length in E.
     simpl in E. destruct c; simpl in E; lia.
+Qed.
+
+(* signals are invisible at PartialRead: interrupted calls are retried, so the bytes delivered are those of the same
+   run without the interruptions *)
+Lemma partial_read_interrupts : forall amt data o l d o', partial_read amt data o = (l, d, o') ->
+  partial_read amt data (strip_interrupts o) = (l, d, strip_interrupts o').
+Proof.
+  intros amt data o. induction o as [|x r IH]; intros l d o' H; simpl in *.
+  - inversion H; subst. reflexivity.
+  - destruct x as [c|]; [|now apply IH]. simpl. inversion H; subst. reflexivity.
 Qed.
 
 Lemma src_read_spec : forall amt s l s', src_read amt s = (l, s') ->
@@ -52,6 +62,35 @@ Lemma read_or_eof_complete : forall amt data o g d o', read_or_eof amt data o = 
   data = g ++ d /\ (length g = amt \/ d = []).
 Proof.
   intros amt data o g d o' H. apply read_or_eof_loop_spec in H as (A & B & C). split; [exact A|]. apply C. lia.
+Qed.
+
+(* ... and at every reader built on it: the source, ReadOrEOF, ReadFactory's header *)
+Definition strip_src (s : src) : src := mk_src (s_hdr s) (s_data s) (strip_interrupts (s_oracle s)).
+
+Lemma src_read_interrupts : forall amt s l s', src_read amt s = (l, s') ->
+  src_read amt (strip_src s) = (l, strip_src s').
+Proof.
+  intros amt s l s' H. unfold src_read, strip_src in *. simpl. destruct (s_hdr s) as [|h hs].
+  - destruct (partial_read amt (s_data s) (s_oracle s)) as [[l0 d] o] eqn:E. inversion H; subst; clear H.
+    rewrite (partial_read_interrupts _ _ _ _ _ _ E). reflexivity.
+  - inversion H; subst. reflexivity.
+Qed.
+
+Lemma read_or_eof_loop_interrupts : forall fuel amt data o g d o', read_or_eof_loop fuel amt data o = (g, d, o') ->
+  read_or_eof_loop fuel amt data (strip_interrupts o) = (g, d, strip_interrupts o').
+Proof.
+  induction fuel as [|f IH]; intros amt data o g d o' H; simpl in *; [inversion H; reflexivity|].
+  destruct amt as [|a]; [inversion H; reflexivity|].
+  destruct (partial_read (S a) data o) as [[l d1] o1] eqn:E. rewrite (partial_read_interrupts _ _ _ _ _ _ E).
+  destruct l as [|x l]; [inversion H; reflexivity|].
+  destruct (read_or_eof_loop f (S a - length (x :: l)) d1 o1) as [[g2 d2] o2] eqn:E2.
+  rewrite (IH _ _ _ _ _ _ E2). inversion H; reflexivity.
+Qed.
+
+Lemma open_fd_interrupts : forall data o, open_fd data (strip_interrupts o) = strip_src (open_fd data o).
+Proof.
+  intros data o. unfold open_fd, read_or_eof. destruct (read_or_eof_loop kMagicSize kMagicSize data o) as [[h d] o'] eqn:E.
+  rewrite (read_or_eof_loop_interrupts _ _ _ _ _ _ _ E). reflexivity.
 Qed.
 
 Lemma open_fd_rest : forall data o, src_rest (open_fd data o) = data.
